@@ -15,6 +15,7 @@
 package table
 
 import (
+	"bytes"
 	"time"
 
 	"github.com/B1NARY-GR0UP/originium/pkg/bufferpool"
@@ -133,5 +134,6 @@ func Build(entries []types.Entry, dataBlockSize, level int) (Index, []byte) {
 		panic(err)
 	}
 
-	return indexBlock, buf.Bytes()
+	// the buffer goes back to the pool when this function returns, the caller gets its own copy
+	return indexBlock, bytes.Clone(buf.Bytes())
 }
